@@ -98,15 +98,19 @@ def main():
                 o["text"] = "out = " + to_text(phi, S)
                 o["phi"] = un("histT", phi0, 0, 2)
                 o["skip_ast"] = True
+        refused = []
+        if unit is not None and rng.random() < 0.2:
+            # a set_sampling_period() call that is refused (tolerance outside [0, 1]) must leave the configured period alone
+            refused = [{"o": 1, "a": "config", "set_period": [pnum * rng.choice([2, 3, 10]), punit, rng.choice([1.5, -0.25, 7])], "reject": True}]
         if online:
-            evs = [ev_parse()]
+            evs = [ev_parse()] + refused
             k0 = rng.randrange(N + 1) if rng.random() < 0.3 else None
             for k in range(N):
                 if k0 == k:
                     evs.append(ev_reset())
                 evs.append(ev_update(ts[k], sample_at(w, k)))
         else:
-            evs = [ev_parse(), ev_evaluate(ts, w)]
+            evs = [ev_parse()] + refused + [ev_evaluate(ts, w)]
             if rng.random() < 0.3:
                 # the same object evaluates a second data set (the same, or another time column): the counter is per data set
                 ts2 = list(ts)
